@@ -101,7 +101,10 @@ value_t basic_reg_lambda_f<T, S>::eval(const dataframe::example &e,
       avg += (lexical_cast<D_DOUBLE>(res) - avg) / ++count;
   }
 
-  if (count > 0.0)
+  // With huge outputs of opposite sign the running average can overflow
+  // (`inf` or, later, `inf - inf`): as for the primitives, a value that
+  // isn't finite is no value.
+  if (count > 0.0 && std::isfinite(avg))
     return avg;
 
   return {};
